@@ -19,8 +19,9 @@ Kinds(name) == IF RealOnly(name) THEN {"real"} ELSE {"real", "complex"}
 AxisOpts(r) == {NoneI, -1} \cup 0..(r - 1)
 LineLen(sh, a) == sh[Ax(IF a = NoneI THEN -1 ELSE a, Len(sh))]
 NOpts(name, L) ==
-  IF C2R(name) THEN (IF L >= 2 THEN {NoneI} ELSE {}) \cup {n \in {L, 2 * L - 1, 2 * L - 2, 2 * L + 1} : n >= 1}
-  ELSE {NoneI} \cup {n \in {L - 1, L + 1, L + 3} : n >= 1}
+  \* (the longest lengths, whose O(n^2) reference sum dominates the cost, are left to Level >= 1)
+  IF C2R(name) THEN (IF L >= 2 THEN {NoneI} ELSE {}) \cup {n \in {L, 2 * L - 1, 2 * L - 2} \cup (IF Level = 0 THEN {} ELSE {2 * L + 1}) : n >= 1}
+  ELSE {NoneI} \cup {n \in {L - 1, L + 1} \cup (IF Level = 0 THEN {} ELSE {L + 3}) : n >= 1}
 N1(name, L) == IF C2R(name) THEN 2 * L - 1 ELSE L + 1
 NNorm1(name, L) ==
   IF Level = 2 THEN NOpts(name, L) \X ({"none"} \cup Norms)
